@@ -96,6 +96,18 @@ func main() {
 		}
 		specs = gen(*tier, rand.New(rand.NewSource(*seed)))
 	}
+	// a scenario that several families contribute is run once
+	{
+		seen := map[string]bool{}
+		var uniq []string
+		for _, s := range specs {
+			if !seen[s] {
+				seen[s] = true
+				uniq = append(uniq, s)
+			}
+		}
+		specs = uniq
+	}
 	if *list {
 		for _, s := range specs {
 			fmt.Println(s)
